@@ -52,8 +52,18 @@ def filled_dataset(model, parameters, label):
     return fill_item(model.dataset[label], model, parameters)
 
 
-def calc_matrix(model_dict, values, dataset_label, global_axis, model_axis, megacomplex_index=0, options=None):
-    """labels, matrix of one megacomplex of a dataset, through the public calculate_matrix"""
+def calc_matrix(model_dict, values, dataset_label, global_axis, model_axis, megacomplex_index=0, options=None, prime=()):
+    """labels, matrix of one megacomplex of a dataset, through the public calculate_matrix.
+
+    `prime`: sibling configurations [(model_dict, values), ...] evaluated first in the same process on the same axes
+    (process-level state - caches, memoised decisions, shared defaults - left behind by a sibling must not leak)."""
+    for pmd, pvals in prime:
+        try:
+            pm = make_model(pmd)
+            pds = filled_dataset(pm, make_parameters(pvals, options), dataset_label)
+            pds.megacomplex[megacomplex_index].calculate_matrix(pds, np.array(global_axis, dtype=float), np.array(model_axis, dtype=float))
+        except Exception:  # noqa: BLE001, S110  (a sibling need not be a valid configuration)
+            pass
     model = make_model(model_dict)
     params = make_parameters(values, options)
     ds = filled_dataset(model, params, dataset_label)
@@ -75,10 +85,17 @@ def _evaluation_history(mc, ds, ga, ma, ga0, ma0, labels, matrix, first):
     axes handed in must be untouched, and the array returned first must not change afterwards."""
     if not (np.array_equal(ga, ga0) and np.array_equal(ma, ma0)):
         raise HistoryError("calculate_matrix modified the axes it was given")
-    try:
-        mc.calculate_matrix(ds, ga[::-1] * 1.01 + 0.5, ma + 0.37)
-    except Exception:  # noqa: BLE001, S110  (the decoy axes need not be meaningful for every model)
-        pass
+    # decoy 1: other values everywhere; decoy 2: same first point, last point and length - other points in between
+    inner_g, inner_m = ga.copy(), ma.copy()
+    if ga.size > 2:
+        inner_g[1:-1] = 0.5 * (ga[1:-1] + ga[2:])
+    if ma.size > 2:
+        inner_m[1:-1] = 0.5 * (ma[1:-1] + ma[2:])
+    for dg, dm in ((ga[::-1] * 1.01 + 0.5, ma + 0.37), (inner_g, inner_m)):
+        try:
+            mc.calculate_matrix(ds, dg, dm)
+        except Exception:  # noqa: BLE001, S110  (the decoy axes need not be meaningful for every model)
+            pass
     labels2, again = mc.calculate_matrix(ds, ga, ma)
     if list(labels2) != labels or not np.array_equal(np.asarray(again), first, equal_nan=True):
         raise HistoryError("a repeated evaluation (after an evaluation on other axes) differs from the first")
